@@ -81,6 +81,9 @@ def new_const(ex, e, st):
     return outs
 
 
+SUMMARY_ONLY = [False]      # set while Circuit._finalize is verified: callers see the summary clauses only (no string reasoning)
+
+
 @contract('Circuit._validate_blk', qual=Q + 'Circuit._validate_blk', modifies=('_blocks', 'inputs'), self_cls='Circuit')
 def _validate_blk(c):
     me, x = c.z('self'), c.v('blk')
@@ -97,6 +100,21 @@ def _validate_blk(c):
     member = Exists([k], And(OI.is_Some(blocks0[k]), OI.v(blocks0[k]) == Val.ref(x)))
     c.requires('consts_are_not_blocks', Not(And(is_const, is_block)))
     r = c.rv
+    # ---- summary clauses (what Circuit._finalize relies on; proved on the body like all the others) -------------------------------------
+    nm_ = Const('n!vb', StringSort())
+    name_map = lambda S_, blocks_: ForAll([nm_], Implies(OI.is_Some(blocks_[nm_]), And(calls.inst_of(OI.v(blocks_[nm_]), BLOCK), S_.whole('name')[OI.v(blocks_[nm_])] == nm_)))
+    c.requires('names_map_to_the_blocks_of_that_name', name_map(c.S, blocks0))
+    blocks1 = c.post('_blocks', me)
+    rr = Val.ref(r)
+    registered = And(calls.inst_of(rr, BLOCK), OI.is_Some(blocks1[c.post('name', rr)]), OI.v(blocks1[c.post('name', rr)]) == rr)
+    c.ensures('summary:result_is_a_const_or_a_registered_block', And(Val.is_Obj(r), Or(calls.inst_of(rr, CONST), registered)))
+    c.ensures('summary:at_most_one_block_is_created_under_the_given_name', Or(blocks1 == blocks0,
+              And(Val.is_S(x), Not(known), blocks1 == Store(blocks0, s, OI.Some(rr)), calls.inst_of(rr, BLOCK), c.post('name', rr) == s)))
+    c.ensures('summary:only_the_created_block_gets_inputs', Or(c.post_whole('inputs') == c.pre_whole('inputs'),
+              And(Val.is_S(x), Not(known), blocks1 != blocks0, c.post_whole('inputs') == Store(c.pre_whole('inputs'), rr, c.post('inputs', rr)))))
+    if not c.verifying and SUMMARY_ONLY[0]:
+        c.raises('KeyError', label='unknown_block_name'); c.raises('ValueError', label='block_of_another_circuit_or_undef_constant')
+        return
     c.raises('KeyError', when=And(Val.is_S(x), Not(known), Not(auto_ctrl), Not(auto_not)), iff=True, label='unknown_block_name')
     c.raises('ValueError', when=Or(And(Not(Val.is_S(x)), Not(is_const), is_block, Not(member)), And(Not(Val.is_S(x)), Not(is_const), Not(is_block), x == Val.Undef)),
              iff=True, label='block_of_another_circuit_or_undef_constant')
@@ -233,6 +251,8 @@ def build(run):
                                                  'self._unresolved.clear': seq_clear},
                invariants={'for (obj, attr, block_type) in self._unresolved': inv_resolve})
 
+    from specs import finalize
+    finalize.verify_finalize(run)
     # ---- lemma one_inverter: the second resolution of the same shortcut name finds the block created by the first ------------------------
     b0 = Const('blocks0', ArraySort(StringSort(), OI)); s = Const('sname', StringSort()); r = Int('created')
     b1 = Store(b0, s, OI.Some(r))
